@@ -50,7 +50,7 @@ def decaying_specs(draw, tier, d_max=5):
                                  families=("gauss",), rank_families=("uniform", "ragged", "over_ranked")))
         return {"kind": kind, "Y": spec, "decay": draw(st.sampled_from([0.0, 0.3, 1.0, 2.0, 4.0])), "scale10": scale10}
     spec = draw(gen.tt_specs(d_max=d_max, n_max=5, r_max=6, size_max=2048, int_storage=True,
-                             families=("smallint", "float", "gauss", "scaled", "rank_deficient", "explicit")))
+                             families=("smallint", "float", "gauss", "scaled", "rank_deficient", "explicit", "zero")))
     return {"kind": kind, "Y": spec, "scale10": scale10}
 
 
@@ -195,6 +195,14 @@ def prop_truncate(case, ctx):
     if 0 < nrm < 1e-3:
         ctx.label("scale<1e-3")
     Z = ctx.lib(teneva.truncate, as_stored(Y, case["T"].get("Y"), ctx), e, cap, use_stab=use_stab, is_eigh=is_eigh)
+    if any(not np.any(G) for G in Y):
+        # an exactly zero tensor stored with ranks > 1 (a core is identically zero): the budget is 0 and every tail energy is exactly 0,
+        # which meets it (the documented test is "<="), so all ranks collapse to 1 - an exact tie that involves no rounding
+        ctx.label("structurally_zero")
+        ctx.check(oracle.wellformed(Z, oracle.shape_of(Y)) is None and max(oracle.ranks_of(Z)) == 1 and not np.any(dense(Z)),
+                  "truncate of an exactly zero tensor: ranks do not collapse to 1 / result not zero", ranks=oracle.ranks_of(Z), ranks_in=oracle.ranks_of(Y))
+        Zm = ctx.lib(teneva.truncate, ctx.lib(teneva.mul, Y, 0.), e, cap, use_stab=use_stab, is_eigh=is_eigh)
+        ctx.check(max(oracle.ranks_of(Zm)) == 1, "truncate(mul(Y, 0.)): ranks do not collapse to 1", ranks=oracle.ranks_of(Zm))
     reduced, _ = check_truncation(ctx, Y, Z, e, cap, is_eigh, f"truncate(is_eigh={is_eigh}, use_stab={use_stab})")
     ctx.nontrivial(reduced)
     # 'with and without stabilisation' also for the documented orth=False spelling (no orthogonalisation: the caller did it): there the
@@ -223,7 +231,7 @@ def addmany_cases(draw, tier):
         if draw(st.integers(0, 4)) == 0:
             items.append({"num": draw(gen.numbers)})
         else:
-            items.append({"tt": draw(gen.tt_specs(shape=n, r_max=3, families=("smallint", "float", "gauss", "dyadic"), int_storage=True)),
+            items.append({"tt": draw(gen.tt_specs(shape=n, r_max=3, families=("smallint", "float", "gauss", "dyadic", "zero"), int_storage=True)),
                           "scale10": draw(st.sampled_from([0, 0, 0, 2, -2, 4]))})
     return {"n": n, "items": items, "log10e": draw(st.floats(-10, -0.3, allow_nan=False)),
             "cap": draw(st.sampled_from([1e12, 1e12, 1e12, 1, 2, 3, 5])), "trunc_freq": draw(st.integers(1, 4))}
@@ -280,6 +288,11 @@ def prop_addmany(case, ctx):
         return
     ctx.check(err <= E_final, "add_many: accumulated error exceeds the per-step bound e*||partial sum||", err=err, bound=E_final,
               e=e, steps=steps, norm=fro(S))
+    tens = [x for x in items if not isinstance(x, (int, float))]
+    if len(tens) == len(items) and all(any(not np.any(G) for G in Y) for Y in tens):
+        # every summand is an exactly zero tensor (a zero core each): the final rounding meets a zero budget with zero tails
+        ctx.label("all_summands_structurally_zero")
+        ctx.check(max(rout) == 1, "add_many of exactly zero tensors: ranks do not collapse to 1", ranks=rout)
 
 
 SUBCHECKS = [
